@@ -4,7 +4,10 @@ import (
 	"encoding/json"
 	"fmt"
 
+	"github.com/trustbloc/sidetree-core-go/pkg/api/operation"
 	"github.com/trustbloc/sidetree-core-go/pkg/api/protocol"
+	"github.com/trustbloc/sidetree-core-go/pkg/api/txn"
+	"github.com/trustbloc/sidetree-core-go/pkg/processor"
 
 	"verifharness/hx"
 	"verifharness/ref"
@@ -36,7 +39,7 @@ func suffixOf(req []byte, code uint64) string {
 }
 
 func checkC11(c *hx.Ctx) {
-	c.Rule("chains of 3-6 requests produced by the client builders (create from patches or opaque document, update, recover from patches or opaque document, deactivate) with generated documents, patch lists, anchor origins of several JSON shapes, windows, nonces, kid headers, over the five key types/signature algorithms and both hash algorithms; oracle 1: the real parser (protocol enabling the algorithm) accepts each request and parses back exactly the supplied suffix, commitments, patches, reveal value, window, anchor origin; oracle 2: anchored in window in order, the real processor resolves to the state the reference model predicts from the builder inputs after every prefix; non-trivial = chain with >=3 applied operations; distinct = key types x hash x chain shape")
+	c.Rule("chains of 3-6 requests produced by the client builders (create from patches or opaque document, update, recover from patches or opaque document, deactivate) with generated documents, patch lists, anchor origins of several JSON shapes, windows, nonces, kid headers, over the five key types/signature algorithms and both hash algorithms; oracle 1: the real parser (protocol enabling the algorithm) accepts each request and parses back exactly the supplied suffix, commitments, patches, reveal value, window, anchor origin; oracle 2: anchored in window in order, the real processor resolves to the state the reference model predicts from the builder inputs after every prefix; oracle 3: two chains anchored round by round through the REAL OperationHandler, CAS files, OperationProvider and TxnProcessor (round k = k-th request of both DIDs in one batch, creates with and without suffix-data type) resolve to the predicted states after every round; non-trivial = chain with >=3 applied operations; distinct = key types x hash x chain shape")
 	nCases := c.N(1500, 20000)
 	root := c.Rng("cases")
 	seeds := make([]uint64, nCases)
@@ -263,6 +266,9 @@ func checkC11(c *hx.Ctx) {
 			c.Sample(2, map[string]interface{}{"chain": labelsOf(H), "key_types": types, "multihash": code, "first_request": string(cr.Req)})
 		}
 	})
+	c11ThroughBatchFiles(c)
+	c.Floor("batch_file_rounds_with_recover_and_update", 20)
+	c.Floor("batch_file_chains_with_suffix_data_type", 20)
 	for _, t := range ref.KeyTypes {
 		c.Floor("signed_with:"+t, 20)
 	}
@@ -285,4 +291,130 @@ func jwkNoEmptyY(v interface{}) interface{} {
 		}
 	}
 	return m
+}
+
+// c11ThroughBatchFiles: "once anchored" goes through batch files. Two client-built chains (different DIDs) are anchored round
+// by round - round k holds the k-th request of both - through the REAL OperationHandler, CAS, OperationProvider and
+// TxnProcessor into an operation store; after every round both DIDs must resolve to the state the builder inputs predict.
+func c11ThroughBatchFiles(c *hx.Ctx) {
+	nPairs := c.N(150, 3000)
+	root := c.Rng("batch-files")
+	seeds := make([]uint64, nPairs)
+	for i := range seeds {
+		seeds[i] = root.U64()
+	}
+	hx.Parallel(nPairs, 16, func(i int) {
+		if c.Violations() > 8 {
+			return
+		}
+		r := hx.NewRng(seeds[i], "c11b")
+		p := hx.BaseProtocol()
+		p.MaxDeltaSize, p.MaxOperationSize = 9000, 20000
+		p.MaxChunkFileSize, p.MaxCoreIndexFileSize, p.MaxProofFileSize, p.MaxProvisionalIndexFileSize = 2000000, 2000001, 2000002, 2000003
+		cas, store := hx.NewMemCAS(), hx.NewOpStore()
+		v := hx.NewVersion(p, hx.VersionOpts{CAS: cas, Store: store})
+		pc := hx.NewClient(v)
+		type chain struct {
+			d     *CDid
+			built []*BuiltOp
+		}
+		var chains []*chain
+		for k := 0; k < 2; k++ {
+			ids := newIDPool(r)
+			typ := ""
+			if (i+k)%2 == 0 {
+				typ = fmt.Sprintf("t%d", r.Intn(9))
+				c.Count("batch_file_chains_with_suffix_data_type")
+			}
+			var patches []interface{}
+			var opaque map[string]interface{}
+			if r.Bool() {
+				opaque = genDoc(r)
+			} else {
+				patches = genPatches(r, 3, ids)
+			}
+			d, cr, err := NewCDid(r.Split(fmt.Sprint("did", k)), ref.SHA256, []string{hx.Pick(r, ref.KeyTypes), "P-256"}, int64(p.MaxOperationTimeDelta), false, patches, opaque, genOrigin(r), typ)
+			if err != nil {
+				c.Violation("C11 client.NewCreateRequest refused valid inputs: "+err.Error(), nil)
+				return
+			}
+			d.Suffix = suffixOf(cr.Req, ref.SHA256)
+			ch := &chain{d: d, built: []*BuiltOp{cr}}
+			for n := 0; n < 2+r.Intn(3) && !d.Deact; n++ {
+				var b *BuiltOp
+				switch r.Intn(5) {
+				case 0:
+					b, err = d.Recover(genPatches(r, 2, ids), nil, genOrigin(r), 0, 0)
+				case 1:
+					b, err = d.Recover(nil, genDoc(r), genOrigin(r), 0, 0)
+				case 2:
+					if n > 1 {
+						b, err = d.Deactivate(0, 0)
+						break
+					}
+					fallthrough
+				default:
+					b, err = d.Update(genPatches(r, 2, ids), 0, 0)
+				}
+				if err != nil {
+					c.Violation("C11 client builder refused valid inputs: "+err.Error(), nil)
+					return
+				}
+				ch.built = append(ch.built, b)
+			}
+			chains = append(chains, ch)
+		}
+		H := map[*chain][]*ref.Op{}
+		for round := 0; ; round++ {
+			var q []*operation.QueuedOperation
+			var kinds []string
+			order := []int{0, 1}
+			if r.Bool() {
+				order = []int{1, 0}
+			}
+			for _, ci := range order {
+				ch := chains[ci]
+				if round >= len(ch.built) {
+					continue
+				}
+				b := ch.built[round]
+				q = append(q, &operation.QueuedOperation{Type: operation.Type(b.Desc.Type), OperationRequest: b.Req, UniqueSuffix: ch.d.Suffix, Namespace: hx.Namespace})
+				kinds = append(kinds, b.Desc.Type)
+				H[ch] = append(H[ch], Place(b.Desc, uint64(1000+10*round), uint64(round%4), fmt.Sprintf("ref%d", round), p.GenesisTime))
+			}
+			if len(q) == 0 {
+				break
+			}
+			c.Eval()
+			replay := map[string]interface{}{"round": round, "batch": kinds}
+			info, err := v.Handler.PrepareTxnFiles(q)
+			if err != nil {
+				c.Violation(fmt.Sprintf("C11 batch of client-built requests %v refused by the operation handler: %v", kinds, err), replay)
+				return
+			}
+			t := txn.SidetreeTxn{Namespace: hx.Namespace, AnchorString: info.AnchorString, TransactionTime: uint64(1000 + 10*round), TransactionNumber: uint64(round % 4),
+				ProtocolVersion: p.GenesisTime, CanonicalReference: fmt.Sprintf("ref%d", round)}
+			if _, err := v.TxnProc.Process(t); err != nil {
+				c.Violation(fmt.Sprintf("C11 anchored batch of client-built requests %v cannot be processed: %v", kinds, err), replay)
+				return
+			}
+			if len(kinds) == 2 && ((kinds[0] == "recover" && kinds[1] == "update") || (kinds[0] == "update" && kinds[1] == "recover")) {
+				c.Count("batch_file_rounds_with_recover_and_update")
+			}
+			for _, ch := range chains {
+				if len(H[ch]) == 0 {
+					continue
+				}
+				st, merr := ref.Resolve(H[ch], ref.ResolveOpts{})
+				rm, err := processor.New("verif", store, pc).Resolve(ch.d.Suffix)
+				if want, got := stKey(st, merr), rmKey(rm, err); want != got {
+					replay["history"], replay["intended"], replay["resolved"] = replayOps(H[ch]), want, got
+					c.Violation(fmt.Sprintf("C11 client-built requests anchored through batch files did not produce the intended state (after round %d, batch %v, history %s)\n   intended: %s\n   resolved: %s", round, kinds, histString(H[ch]), want, got), replay)
+					return
+				}
+			}
+			c.Count("batch_file_rounds")
+		}
+		c.Distinct(fmt.Sprintf("bf|%v|%v", labelsOf(H[chains[0]]), labelsOf(H[chains[1]])))
+	})
 }
